@@ -260,3 +260,20 @@ m("c19-mix-normalised-by-sum", ["C19"], D, "    maxloss = df[\"Loss (W)\"].max()
 m("c19-nice-float-two-digits-milli", ["C19"], D, "        return \"{}m\".format(round(f * 1e3, 3 - (4 + pwr)))", "        return \"{}m\".format(round(f * 1e3, 2 - (4 + pwr)))")
 m("c19-heat-unweighted-phase-average", ["C19"], D, "            avg += phases[key] * df2[df2.Phase == key][\"Loss (W)\"].to_numpy().astype(", "            avg += (w + phases[key]) / (len(phases) + 0.0) * 0 + (sum(phases.values()) / len(phases)) * df2[df2.Phase == key][\"Loss (W)\"].to_numpy().astype(")
 m("c19-cluster-label-missing-member", ["C19"], D, "                if sys._g.attrs[\"groups\"][n] == g:\n                    add_node(sg, n, bd_conf[\"node\"], ldf)", "                if sys._g.attrs[\"groups\"][n] == g and sys._g.out_degree(sys._g.attrs[\"nodes\"][n]) < 3:\n                    add_node(sg, n, bd_conf[\"node\"], ldf)")
+
+# ---- C02 -------------------------------------------------------------------------------------
+m("c02-mosfet-rectifier-loss-single-fet", ["C02"], C, "            loss += 2 * self._params[\"rs\"] * abs(io) ** 2", "            loss += self._params[\"rs\"] * abs(io) ** 2")
+m("c02-linreg-loss-uses-vo-in-dropout", ["C02"], C,
+  "        v = min(abs(self._params[\"vo\"]), max(abs(vi) - self._params[\"vdrop\"], 0.0))\n        loss = self._ipr._interp(abs(io), abs(vi)) * abs(vi)",
+  "        v = abs(self._params[\"vo\"])\n        loss = self._ipr._interp(abs(io), abs(vi)) * abs(vi)")
+m("c02-converter-iq-added-under-load", ["C02"], C,
+  "            loss = abs(ii * vi * (1.0 - self._ipr._interp(abs(io), abs(vi))))", "            loss = abs(ii * vi * (1.0 - self._ipr._interp(abs(io), abs(vi)))) + abs(self._params[\"iq\"] * vi)")
+m("c02-source-loss-linear", ["C02"], C, "        loss = self._params[\"rs\"] * io * io", "        loss = self._params[\"rs\"] * io * abs(self._params[\"vo\"]) / 12.0")
+m("c02-load-peak-temp-without-ambient", ["C02"], C, "            return pi, 0.0, 100.0, tr, tr + ta", "            return pi, 0.0, 100.0, tr, tr + (ta if ta == 25.0 else 25.0)")
+m("c02-diode-rectifier-loss-one-diode", ["C02"], C,
+  "            vout = vi - 2 * self._ipr._interp(abs(io), abs(vi)) * np.sign(vi)\n            if np.sign(vout) != np.sign(vi) or _get_lopt(pstate, \"off\", 0, False):",
+  "            vout = vi - self._ipr._interp(abs(io), abs(vi)) * np.sign(vi)\n            if np.sign(vout) != np.sign(vi) or _get_lopt(pstate, \"off\", 0, False):")
+m("c02-pswitch-temp-rise-from-power", ["C02"], C,
+  "        tr = loss * self._params[\"rt\"]\n        return pwr, loss, _get_eff(pwr, pwr - loss, 0.0), tr, tr + ta\n\n    def _get_annot(self):\n        \"\"\"Get PSwitch",
+  "        tr = pwr * self._params[\"rt\"]\n        return pwr, loss, _get_eff(pwr, pwr - loss, 0.0), tr, tr + ta\n\n    def _get_annot(self):\n        \"\"\"Get PSwitch")
+m("c02-load-as-loss-counted-twice", ["C02"], C, "        if self._params[\"loss\"]:\n            return 0.0, pi, 0.0, tr, tr + ta", "        if self._params[\"loss\"]:\n            return pi, pi, 0.0, tr, tr + ta")
